@@ -1470,3 +1470,31 @@ Example C06_splice_agreement_set_path_noauth_inhabited :
   /\ (exists u', set_path true na_u (B "/x y/../z") = Some u' /\ ser u' = B "a:/z" /\ path_starts_with_2slash u' = false)
   /\ splice_path na_u (B "/x y/../z") = B "a:/x y/../z".
 Proof. exact (splice_noauth_inhabited ex_hp ex_hp ex_hd). Qed.
+
+(* 30. The class F-C06-7 is also exact on file URLs whose path is longer than "/" and does not start with "//"
+   (file_path_inv; true of every parsed file URL): parse_path's file-only steps - a '/' inserted behind a normalized
+   drive letter that is the whole path so far, the rewriting of a drive-letter first segment "C|" to "C:", the collapse
+   of leading slashes - cannot occur there.  On the root path "/" they can (file:/// push("C|") gives file:///C:,
+   push("C:<TAB>x") gives file:///C:/x - two segments from one push; replayed on the crate): not covered. *)
+Theorem C06_7_class_exact_file : forall dbg s0 ps P seg s', nlen s0 = ps -> 1 < nlen P -> file_path_inv P -> usv_list seg ->
+  psm_extend_loop dbg STFile ps (s0 ++ P) [seg] = Some s' ->
+  (s' = s0 ++ push_text STFile P seg <-> known_c06_7 seg = false).
+Proof. exact push_class_exact_file. Qed.
+Check C06_7_class_exact_file : forall dbg s0 ps P seg s', nlen s0 = ps -> 1 < nlen P -> file_path_inv P -> usv_list seg ->
+  psm_extend_loop dbg STFile ps (s0 ++ P) [seg] = Some s' ->
+  (s' = s0 ++ push_text STFile P seg <-> known_c06_7 seg = false).
+Print Assumptions C06_7_class_exact_file.
+
+(* on "file:///a/b" (s0 = "file://", P = "/a/b"): push(".<TAB>.") pops, push("C|") is appended verbatim;
+   on the root path "/" push("C|") is rewritten to "C:" (outside the premise 1 < nlen P) *)
+Example C06_7_class_exact_file_inhabited :
+  file_path_inv (B "/a/b") /\ (exists c r, B "/a/b" = 47 :: c :: r /\ c <> 47)
+  /\ psm_extend_loop true STFile 7 (B "file://" ++ B "/a/b") [[46; 9; 46]] = Some (B "file:///a/")
+  /\ psm_extend_loop true STFile 7 (B "file://" ++ B "/a/b") [B "C|"] = Some (B "file:///a/b/C|")
+  /\ push_text STFile (B "/a/b") (B "C|") = B "/a/b/C|"
+  /\ psm_extend_loop true STFile 7 (B "file://" ++ B "/") [B "C|"] = Some (B "file:///C:")
+  /\ push_text STFile (B "/") (B "C|") = B "/C|".
+Proof.
+  assert (file_path_inv (B "/a/b")) as H by (exists 97, (B "/b"); split; [reflexivity | discriminate]).
+  split; [exact H|]. split; [exact H|]. repeat split; vm_compute; reflexivity.
+Qed.
